@@ -203,12 +203,16 @@ def _sig(cid, op, fl):
 def _source_stage(R, cid):
     """regenerate coq/Gen/PyPattern.v from the current source; if it changed (or the translator failed closed) the
     proof stage of the calling check may have used a stale copy: rebuild Props/<cid>.vo now"""
-    ok_tr, msg, changed = PS.regen_pypattern()
-    if ok_tr and not changed:
-        return True, ''
-    ok, log = C.coq_make([f'Props/{cid}.vo'])
-    if ok_tr and ok:
-        return True, ''
+    msg = log = ''
+    for _attempt in (1, 2):      # a concurrent check run on another tree may rewrite coq/Gen/PyPattern.v in between: try twice
+        ok_tr, msg, changed = PS.regen_pypattern()
+        if ok_tr and not changed and _attempt == 1:
+            return True, ''
+        ok, log = C.coq_make([f'Props/{cid}.vo'])
+        if ok_tr and ok:
+            return True, ''
+        if not ok_tr:
+            break
     return False, (msg or log[-1500:])
 
 
